@@ -11,3 +11,4 @@ def run(ck):
     region.r15_4_sentinels(ck, P)
     region.r5_4_success_writes_result(ck, P)
     region.r5_5_copy_sets_count(ck, P)
+    region.r5_6_subsumption_single_rect(ck, P)
